@@ -244,10 +244,12 @@ func (w *world) dump() string {
 		for d, a := range w.accs {
 			if u, err := app.StakingKeeper.GetUnbondingDelegation(ctx, a, v); err == nil && len(u.Entries) > 0 {
 				bal := sdkmath.ZeroInt()
+				var hs []string
 				for _, e := range u.Entries {
 					bal = bal.Add(e.Balance)
+					hs = append(hs, strconv.FormatInt(e.CreationHeight, 10))
 				}
-				us = append(us, fmt.Sprintf("%d:%d:%d:%s", d, vi, len(u.Entries), bal))
+				us = append(us, fmt.Sprintf("%d:%d:%d:%s:%s", d, vi, len(u.Entries), bal, strings.Join(hs, "/")))
 			}
 		}
 	}
@@ -255,7 +257,11 @@ func (w *world) dump() string {
 		for di, dst := range w.vals {
 			for d, a := range w.accs {
 				if r, err := app.StakingKeeper.GetRedelegation(ctx, a, src, dst); err == nil && len(r.Entries) > 0 {
-					rds = append(rds, fmt.Sprintf("%d:%d:%d:%d", d, si, di, len(r.Entries)))
+					var hs []string
+					for _, e := range r.Entries {
+						hs = append(hs, strconv.FormatInt(e.CreationHeight, 10))
+					}
+					rds = append(rds, fmt.Sprintf("%d:%d:%d:%d:%s", d, si, di, len(r.Entries), strings.Join(hs, "/")))
 				}
 			}
 		}
